@@ -44,6 +44,17 @@ def build(kind, rng, et="QUAD4", h=1.0):
         mat = Models.Elastic.Isotropic(2, E=210.0, v=0.3, planeStress=True, thickness=1.0)
         s = Simulations.PhaseField(mesh, Models.PhaseField(mat, split, "AT2", 0.5, 0.4, solver=solver))
         names = ["displacement", "damage", "Wdef"]
+    elif kind == "hyperelastic":
+        s = Simulations.HyperElastic(mesh, Models.HyperElastic.NeoHookean(2, 2.0))
+        s.Solver_Set_Hyperbolic_Algorithm(0.25)
+        names = ["displacement", "speed", "accel", "Svm", "W"]
+    elif kind == "beam":
+        from EasyFEA import Mesher as _Mesher, ElemType as _ET
+        from EasyFEA.Geoms import Domain as _Dom, Point as _Pt, Line as _Ln
+        beam_ = Models.Beam.Isotropic(2, _Ln(_Pt(0, 0), _Pt(2.0, 0), 0.5), _Mesher().Mesh_2D(_Dom(_Pt(), _Pt(0.1, 0.1))), 1000.0, 0.3)
+        mesh = _Mesher().Mesh_Beams([beam_], elemType=_ET.SEG3)
+        s = Simulations.Beam(mesh, Models.Beam.BeamStructure([beam_]))
+        names = ["displacement", "Mz", "Stress"]
     else:
         raise ValueError(kind)
     return s, mesh, names
@@ -56,6 +67,9 @@ def apply_load(s, mesh, kind, val):
     if kind == "thermal":
         s.add_dirichlet(left, [0.0], ["t"])
         s.add_dirichlet(right, [val * 10], ["t"])
+    elif kind == "beam":
+        s.add_dirichlet(left, [0.0, 0.0, 0.0], ["x", "y", "rz"])
+        s.add_dirichlet(right, [val], ["y"])
     else:
         s.add_dirichlet(left, [0.0, 0.0], ["x", "y"])
         s.add_dirichlet(right, [val], ["x"])
@@ -96,16 +110,20 @@ def main():
     scratch = tempfile.mkdtemp(prefix="verif-c15-")
     kinds = ["elastic", "thermal", "inelastic", "phasefield:HistoryDamage:Miehe", "phasefield:BoundConstrain:Amor", "phasefield:History:Amor",
              "elastic", "thermal", "inelastic", "phasefield:HistoryDamage:Amor", "phasefield:BoundConstrain:Miehe", "phasefield:History:Miehe"]
+    # every simulation type: the remaining ones take turns at the end of each run
+    extra_kinds = ["hyperelastic", "beam"]
     nhist = 6 if args.tier == "quick" else 18
     nops = 10 if args.tier == "quick" else 16
     lines, expect = [], []
     try:
-        for h in range(nhist):
-            kind = kinds[(h + 6 * (args.seed % 2)) % len(kinds)]
+        nextra = 1 if args.tier == "quick" else 4
+        for h in range(nhist + nextra):
+            kind = kinds[(h + 6 * (args.seed % 2)) % len(kinds)] if h < nhist else extra_kinds[(h - nhist + args.seed) % len(extra_kinds)]
             s, mesh, names = build(kind, rng)
             meshes = [mesh]
             mesh_variants = [("QUAD4", 2.0, 1.0, 0.5), ("TRI3", 2.0, 1.0, 1.0)]  # finer mesh / other elements on the same nodes
             snaps = []          # harness-side record of what was current at each Save_Iter
+            stored = []         # private copies of every array of the stored iteration, taken right after Save_Iter
             registry = []       # distinct live states -> id for the Lean model
             model_ops, ops_txt = [], []
             folders = ["-"]
@@ -157,6 +175,11 @@ def main():
                 elif op == "save":
                     s.Save_Iter()
                     snaps.append(snapshot(s, names))
+                    try:
+                        stored.append({k: np.array(v, dtype=float).copy() for k, v in s.Get_results(len(snaps) - 1).items()
+                                       if isinstance(v, (np.ndarray, float, int)) and not isinstance(v, bool)})
+                    except Exception:  # noqa: BLE001
+                        stored.append({})
                     if restored is not None:
                         # saving a restored iteration again stores that iteration (spec: setIter j; save appends log[j])
                         res.case((h, len(ops_txt), "re-save"))
@@ -206,7 +229,12 @@ def main():
                         model_ops += ["query", str(i)]
                         ops_txt.append(f"Get_results({i})")
                     else:
-                        if op == "set":
+                        if op == "set" and kind.startswith("phasefield") and rng.random() < 0.5:
+                            # restart variant of the public call: the history field is rebuilt from the restored state,
+                            # the restored results are those of iteration i and the stored iterations stay what they were
+                            s.Set_Iter(i, resetAll=True)
+                            ops_txt.append(f"Set_Iter({i}, resetAll=True)")
+                        elif op == "set":
                             s.Set_Iter(i)
                         else:
                             s.Result(names[0], iter=i)  # Result(..., iter=i) restores as a side effect
@@ -232,6 +260,11 @@ def main():
                     res.case((h, len(ops_txt), "immutable", i), nontrivial=False)
                     if key in r and not same(r[key], want[key]):
                         res.fail(f"stored iteration altered sim={kind}", f"iteration {i} changed after '{ops_txt[-1] if ops_txt else ''}'", ident())
+                        break
+                    changed = [k for k, v in stored[i].items() if k in r and not same(np.array(r[k], dtype=float), v)]
+                    if changed:
+                        res.fail(f"stored iteration altered sim={kind} entries={','.join(sorted(changed))}",
+                                 f"the stored arrays {sorted(changed)} of iteration {i} changed after '{ops_txt[-1] if ops_txt else ''}'", ident())
                         break
             # final sweep: every saved iteration is restored once, in a shuffled order
             order = list(range(len(snaps)))
@@ -280,7 +313,7 @@ def main():
                                  f"a solve after Set_Iter({i}) gives different {bad} than the same solve from the state that was current when iteration {i} was saved "
                                  "(an internal variable is not restored)", ident())
                 except Exception as ex:  # noqa: BLE001
-                    res.notes.append(f"{kind}: continuation probe raised {type(ex).__name__}: {str(ex)[:100]}")
+                    res.fail(f"continuation after a restore raises sim={kind}", f"{type(ex).__name__}: {str(ex)[:120]}", ident())
             # Save / Load round trip
             if snaps and h % 2 == 0:
                 folder = os.path.join(scratch, f"save{h}")
@@ -297,6 +330,38 @@ def main():
                         bad = [n for n in names if not same(now[n], snaps[i][n], 1e-7)]
                         if bad:
                             res.fail(f"save-load restore sim={kind} fields={','.join(bad)}", f"after Save/Load_Simu, Set_Iter({i}) gives different {bad}", ident())
+                    # the saved simulation goes on living: every iteration is restored (the meshes of the history now live in the
+                    # save folder), the folder is changed, every iteration is restored again, and the simulation is saved elsewhere
+                    stage = "restore after Save"
+                    for rnd in (0, 1):
+                        for i2 in (range(len(snaps)) if rnd == 0 else reversed(range(len(snaps)))):
+                            s.Set_Iter(i2)
+                            now = snapshot(s, names)
+                            res.case((h, "after-save", rnd, i2))
+                            bad = [n for n in list(names) + ["__Nn", "__Ne"] if not same(now[n], snaps[i2][n], 1e-7)]
+                            if bad:
+                                res.fail(f"restore after Save sim={kind} fields={','.join(bad)}", f"Save(folder), {'folder changed, ' if rnd else ''}Set_Iter({i2}): {bad} differ from those current when iteration {i2} was saved", ident())
+                                break
+                        s.folder = os.path.join(scratch, f"elsewhere{h}")
+                        stage = "restore after Save and a change of folder"
+                    stage = "second Save in another folder"
+                    folder2 = os.path.join(scratch, f"save{h}b")
+                    s.Save(folder2)
+                    stage = "Load_Simu of the second Save"
+                    s3 = Load_Simu(folder2)
+                    res.case((h, "save-save-load"))
+                    if s3.Niter != s.Niter:
+                        res.fail(f"second save-load sim={kind}", f"simulation saved a second time in another folder: loaded Niter={s3.Niter}, saved {s.Niter}", ident())
+                    else:
+                        for i2 in range(len(snaps)):
+                            s3.Set_Iter(i2)
+                            now = snapshot(s3, names)
+                            bad = [n for n in list(names) + ["__Nn", "__Ne"] if not same(now[n], snaps[i2][n], 1e-7)]
+                            if bad:
+                                res.fail(f"second save-load restore sim={kind} fields={','.join(bad)}", f"Save(A), Save(B), Load_Simu(B), Set_Iter({i2}): {bad} differ from those current when iteration {i2} was saved", ident())
+                                break
+                except AssertionError as ex:
+                    res.fail(f"save-load raises sim={kind} stage={locals().get('stage', 'first Save / Load_Simu')}", f"{locals().get('stage', 'first Save / Load_Simu')} raised {type(ex).__name__}: {str(ex)[:150]}", ident())
                 except Exception as ex:  # noqa: BLE001
                     res.fail(f"save-load raises sim={kind} {type(ex).__name__}: {str(ex)[:40]}", f"Save/Load_Simu raised {type(ex).__name__}: {str(ex)[:150]}", ident())
             # model correspondence: map each saved snapshot to the id of the live state at save time
